@@ -274,6 +274,29 @@ PROPS = {
         "trusted_base": TB_COMMON + ["Utc::now() is read by the harness inside the same second as the mutator (the harness waits when the clock is within 150 ms of a second boundary)"],
         "assumptions": ["a deleted TaskData is dropped by the caller (documented)", "create_task twice for one new uuid without a commit in between records two Creates (the replica cannot know): not generated as a violation"],
     },
+    "C06": {
+        "module": "TcVerif.Props.C06",
+        "theorems": ["Tc.C06_uncommitted_invisible", "Tc.C06_committed_visible", "Tc.C06_interrupted_action_states",
+                     "Tc.C06_single_transaction_atomic", "Tc.C06_commit_atomic", "Tc.C06_rebuild_atomic", "Tc.C06_undo_is_two_transactions"],
+        "leanchecker_modules": [],
+        "runs": [
+            {"family": "rep", "flags": ["--crash"], "quick": {"cases": 60, "max_len": 25}, "thorough": {"cases": 1500, "max_len": 40}},
+            {"family": "sqlkill", "driver": "rep", "flags": [], "quick": {"cases": 40, "max_len": 400}, "thorough": {"cases": 600, "max_len": 1500}},
+        ],
+        "judge_preds": ["atomic"],
+        "nontrivial": lambda imp, ops: any(l.startswith("F ") for l in ops),
+        "rule": "rep --crash: one replica on SQLite; random batches of operations, undo, explicit undo, working-set rebuilds (both modes), expiry and syncs, about half of them with the "
+                "k-th storage call from now (k = 1..16: every call index of every action is hit over a run) failing — the transaction is abandoned — after which the replica object "
+                "is dropped and the database opened through a fresh SqliteStorage; the harness records whether no transaction, the first of two, or all of them committed (before / "
+                "mid / after) and the reopened contents (tasks, working set, operations) must equal the model's state for that outcome. sqlkill: a child process performs up to "
+                "max_len such actions on a SQLite replica, announcing each before and acknowledging it after, and is SIGKILLed after a random 0-150 ms; the parent opens the "
+                "database with a fresh handle: every acknowledged action must be there and the action in flight entirely or not at all (labelled by comparison with the same "
+                "actions replayed in memory), compared with the model. The Lean judge fails 'mid' outcomes (half of a two-transaction action) and any visible effect of an "
+                "abandoned transaction. non-trivial = the case has an interrupted action; distinct by SHA-1",
+        "trusted_base": TB_COMMON + ["SIGKILL of a process stands for 'the process is killed'; loss of power / OS crash (fsync behaviour of the WAL) is not exercised",
+                                     "the ObsStorage wrapper (counts and fails storage calls) is transparent otherwise"],
+        "assumptions": ["partial: that SQLite implements the transaction abstraction is checked, not proved"],
+    },
     "C08": {
         "module": "TcVerif.Props.C08",
         "theorems": ["Tc.C08_chain_invariant", "Tc.C08_rejected_unchanged", "Tc.C08_accept_iff", "Tc.C08_child_bytes_exact",
